@@ -308,6 +308,19 @@ static void do_op(const char *op, int a, int b, const char *text)
         long s = 0; for (size_t i = 0; i < n; i++) s += v[i];
         res_arr((long)n, s); free(v);
     }
+    else if (!strcmp(op, "vec_inout_alloc")) {
+        int *v = (int *)exact(sizeof(int) * a); for (int i = 0; i < a; i++) v[i] = i + 1;
+        sim_phase(1); SIM_vec_inout_alloc_bufferify(v, a, &d);
+        size_t n = d.size;
+        int *w = (int *)exact(sizeof(int) * n);
+        SIM_ShroudCopyArray(&d, w, n); sim_phase(0);
+        long s = 0; for (size_t i = 0; i < n; i++) s += w[i];
+        res_arr((long)n, s); free(v); free(w);
+    }
+    else if (!strcmp(op, "str_ptr_out")) {
+        char *buf = exact(a); memset(buf, '#', a);
+        sim_phase(1); SIM_str_ptr_out_bufferify(buf, a, b); sim_phase(0); res_str(buf, a); free(buf);
+    }
     else if (!strcmp(op, "arr_fill_out")) {
         double *v = (double *)exact(sizeof(double) * (a + 1)); for (int i = 0; i <= a; i++) v[i] = -1.0;
         sim_phase(1); SIM_arr_fill_out(a, v); sim_phase(0);
